@@ -468,6 +468,65 @@ def check_homopolymers(case):
     return out, calls
 
 
+def check_argtypes(case):
+    """Raw-value entry points with coordinates as str / int / numpy numbers, and numeric point labels including zero."""
+    from localcider import plots
+    out = []
+    calls = 0
+    P = plt()
+    cfg = {"label": "", "title": None, "legend": True, "xLim": 1, "yLim": 1, "font": 10}
+
+    def v(key, what):
+        out.append({"key": key, "what": what, "case": case})
+
+    def markers_of(ret):
+        d = inspect(fig_of(ret) or P.gcf())
+        P.close("all")
+        return None if d is None else d
+
+    convs = {"str": str, "numpy-float32": lambda x: np.float32(x), "numpy-float64": np.float64, "repr-str": lambda x: repr(float(x))}
+    for (a, b) in ((0.25, 0.5), (0.0, 0.125), (0.5, 0.375)):
+        for cn, cv in convs.items():
+            for name, f, exp in (("plots.show_single_phasePlot", lambda x, y: plots.show_single_phasePlot(x, y, getFig=True), (a, b)),
+                                 ("plots.show_single_uverskyPlot", lambda x, y: plots.show_single_uverskyPlot(x, y, getFig=True), (b, a))):
+                P.close("all")
+                calls += 1
+                try:
+                    d = markers_of(f(cv(a), cv(b)))
+                except Exception as e:  # noqa
+                    v("plot-raises:" + name, "%s with coordinates as %s raised %r" % (name, cn, e))
+                    P.close("all")
+                    continue
+                if d is None or len(d["markers"]) != 1 or abs(d["markers"][0][0] - exp[0]) > 1e-6 or abs(d["markers"][0][1] - exp[1]) > 1e-6:
+                    v("marker-position:" + name.split("_")[-1], "%s with coordinates (%r,%r) given as %s: markers %r, expected %r"
+                      % (name, a, b, cn, None if d is None else d["markers"], exp))
+    # numeric labels, including zero, on the multi-sequence functions
+    objs = [SP(s_) for s_ in SEQS]
+    fp = [o.get_fraction_positive() for o in objs]
+    fn = [o.get_fraction_negative() for o in objs]
+    hy = [o.get_uversky_hydropathy() for o in objs]
+    mc = [o.get_mean_net_charge() for o in objs]
+    for labels in ([0, 1, 2], [0.0, 0.5, 1.5], [2, 0, 0], ["a", 0, "c"]):
+        want = [str(l) for l in labels]
+        for name, f in (("plots.show_multiple_phasePlot", lambda L: plots.show_multiple_phasePlot(fp, fn, L, getFig=True)),
+                        ("plots.show_multiple_phasePlot2", lambda L: plots.show_multiple_phasePlot2(objs, L, getFig=True)),
+                        ("plots.show_multiple_uverskyPlot", lambda L: plots.show_multiple_uverskyPlot(hy, mc, L, getFig=True)),
+                        ("plots.show_multiple_uverskyPlot2", lambda L: plots.show_multiple_uverskyPlot2(objs, L, getFig=True))):
+            P.close("all")
+            calls += 1
+            try:
+                d = markers_of(f(list(labels)))
+            except Exception as e:  # noqa
+                v("plot-raises:" + name, "%s with labels %r raised %r" % (name, labels, e))
+                P.close("all")
+                continue
+            got = None if d is None else [t for t, _ in d["texts"]]
+            if got != want:
+                v("point-labels:" + name, "%s with labels %r drew %r, expected %r" % (name, labels, got, want))
+    P.close("all")
+    return out, calls
+
+
 def check_polygons(case):
     """Polygons read once from a real figure; every composition of total lo..hi classified by the real classifier."""
     out = []
@@ -504,6 +563,8 @@ def check_case(case):
         return check_counts(case)
     if case["kind"] == "after-rejected":
         return check_after_rejected(case)
+    if case["kind"] == "argtypes":
+        return check_argtypes(case)
     if case["kind"] == "homopolymers":
         return check_homopolymers(case)
     if case["kind"] == "polygons":
@@ -551,6 +612,7 @@ def run(tier, seed, t0):
     for ep in ("plots.multiple_phasePlot", "plots.multiple_phasePlot2", "plots.multiple_uverskyPlot", "plots.multiple_uverskyPlot2"):
         cases.append({"kind": "counts", "ep": ep, "counts": [3, 5, 2, 1, 4]})
     cases.append({"kind": "after-rejected"})
+    cases.append({"kind": "argtypes"})
     HN = 40 if tier == "quick" else 120
     for res in "ACDEFGHIKLMNPQRSTVWY":
         for lo in range(1, HN + 1, 20):
